@@ -225,6 +225,36 @@ def Conn.update (c : Conn) (u : Str) (dg ng : Option Str) : Except ConnErr HttpR
   let hs := dupdate c.headers headers
   .ok { url := c.updateEndpoint ++ '?' :: urlencode ps, headers := hs, data := some (utf8 u) }
 
+/-! ### which graph a store call addresses: `SPARQLStore._is_contextual` -/
+
+/-- the `context` / `queryGraph` argument of a store call: absent, a string (what `Graph.query` passes: the graph's
+    identifier or `"__UNION__"`), or a `Graph` object (its identifier) -/
+inductive CtxArg
+  | none
+  | str (s : Str)
+  | graph (identifier : Str)
+  deriving Repr, DecidableEq
+
+def sUnion : Str := "__UNION__".toList
+
+/-- `_is_contextual(graph)`: must the GRAPH keyword / the `default-graph-uri` parameter appear? -/
+def isContextual (contextAware : Bool) (a : CtxArg) : Bool :=
+  if !contextAware || a == .none then false
+  else match a with
+    | .str s => s != sUnion && s != Tables.datasetDefaultGraphId
+    | .graph i => i != Tables.datasetDefaultGraphId
+    | .none => false
+
+def CtxArg.ident : CtxArg → Option Str
+  | .none => Option.none
+  | .str s => some s
+  | .graph i => some i
+
+/-- `default_graph = context.identifier if self._is_contextual(context) else None` (`triples`, `__len__`) resp.
+    `queryGraph if self._is_contextual(queryGraph) else None` (`query`) -/
+def storeDG (contextAware : Bool) (a : CtxArg) : DG :=
+  if isContextual contextAware a then (match a.ident with | some i => .iri i | Option.none => .none) else .none
+
 /-! ### the server side (specification): SPARQL 1.1 Protocol reader -/
 
 def hexVal (c : Char) : Option Nat :=
